@@ -454,3 +454,38 @@ int bad_shift_widen__mask_var(const dig_t k[], int j, int i) {
 	const unsigned int mask = 1u << i;
 	return (k[j] & mask) != 0;
 }
+
+/* WINDOW-FIT: the window ladder was extended by one step over a table sized for the old maximum */
+void ok_window_fit__slide(bn_t c, const bn_t a, size_t l) {
+	bn_t tab[64];
+	size_t w = 1;
+	if (l <= 256) {
+		w = 5;
+	} else {
+		w = 7;
+	}
+	for (size_t i = 0; i < (1 << (w - 1)); i++) {
+		bn_null(tab[i]);
+		bn_new(tab[i]);
+		bn_copy(tab[i], a);
+	}
+	bn_copy(c, tab[0]);
+}
+
+void bad_window_fit__slide(bn_t c, const bn_t a, size_t l) {
+	bn_t tab[64];
+	size_t w = 1;
+	if (l <= 256) {
+		w = 5;
+	} else if (l <= 1024) {
+		w = 7;
+	} else {
+		w = 8;
+	}
+	for (size_t i = 0; i < (1 << (w - 1)); i++) {
+		bn_null(tab[i]);
+		bn_new(tab[i]);
+		bn_copy(tab[i], a);
+	}
+	bn_copy(c, tab[0]);
+}
